@@ -117,7 +117,7 @@ pub fn eval(case: &J) -> Outcome {
 pub fn gen_list(rng: &mut Rng, _k: usize, _tier: &str) -> J {
     let n = 1 + rng.below(4);
     // aggregate-free items (literals) before, between and after the aggregate items
-    let items: Vec<J> = (0..n).map(|_| if rng.chance(1, 3) { json!(["lit", rng.range(-3, 9)]) } else { gen_a(rng, 1 + rng.below(2) as u32) }).collect();
+    let items: Vec<J> = (0..n).map(|_| if rng.chance(1, 3) { json!(["lit", rng.range(-3, 9)]) } else { let d = 1 + rng.below(2) as u32; gen_a(rng, d) }).collect();
     json!({"items": items})
 }
 
